@@ -214,7 +214,7 @@ theorem mstep_DE (s s' : St) (i : Mi) (h : mstep s i = .ok s') (de : DeadEmpty s
         intro hl
         simp at hlive
         simp only at hl
-        rw [hlive] at hl; cases hl
+        rw [hlive.1] at hl; cases hl
   | shrink d j =>
     simp only [mstep] at h
     split at h
@@ -231,7 +231,7 @@ theorem mstep_DE (s s' : St) (i : Mi) (h : mstep s i = .ok s') (de : DeadEmpty s
           intro hl
           simp at hlive
           simp only at hl
-          rw [hlive] at hl; cases hl
+          rw [hlive.1] at hl; cases hl
         · cases h
   | pushRoot => simp only [mstep, pure, Except.pure] at h; cases h; exact DE_heap_eq s _ rfl de
   | popRoot =>
